@@ -66,6 +66,9 @@ TrDefOp ==
                 /\ Clause("C13." \o e.c.op \o ".fresh", e.fresh_eq)
                 /\ Clause("C13." \o e.c.op \o ".rows", e.shape_ok)
                 /\ Clause("C14." \o e.c.op \o ".frame", Frame({e.h}))
+                (* the same condition as a clause of C13: every OTHER definition's own history contains no
+                   edit here, so its triple must still be what its model says *)
+                /\ Clause("C13." \o e.c.op \o ".others_unchanged", Frame({e.h}))
        ELSE Clause("domain", FALSE) /\ UNCHANGED ds
     /\ UNCHANGED cs
 
